@@ -14,7 +14,7 @@
 //                                                                                  6 bfc 7 bfm 8 sbfm 9 ubfm 10 lsl 11 lsr 12 asr (immediate forms); x = 1: X registers;
 //                                                                                  a, b = lsb,width / immr,imms / shift,0; fields read back from the emitted word)
 //   Y op form size acc optsize longform imm             -> "Y <ok> <has66> <rexw> <short> <opcode> <immsize> <field>"  (x86::Assembler, X64: op 0..7 =
-//                                                                                  add or adc sbb and sub xor cmp; form 0: register (acc = 1: AL/AX/EAX/RAX, else CL/CX/ECX/RCX),
+//                                                                                  add or adc sbb and sub xor cmp, 8 = test, 9 = mov, 10 = imul r, r/m, imm (source rdx / [rcx]), 11 = push imm; short = no ModRM byte; form 0: register (acc = 1: AL/AX/EAX/RAX, else CL/CX/ECX/RCX),
 //                                                                                  form 1: <size> ptr [rcx]; EncodingOptions::kOptimizeForSize / InstOptions::kLongForm;
 //                                                                                  the emitted bytes are parsed: 66?, REX?, opcode, ModRM unless short form, immediate = rest)
 //   E width off nbits                                   -> "E <ok>"              (EmitterUtils::is_encodable_offset_32 / _64; width = 32|64)
@@ -204,14 +204,25 @@ int main() {
     }
     else if (c == 'Y') {
       unsigned op, form, size, acc, optsize, longform; long long imm;
-      if (sscanf(line + 1, "%u %u %u %u %u %u %lld", &op, &form, &size, &acc, &optsize, &longform, &imm) != 7 || !xa.init() || op > 7) { printf("BAD\n"); continue; }
-      static const InstId ids[8] = { x86::Inst::kIdAdd, x86::Inst::kIdOr, x86::Inst::kIdAdc, x86::Inst::kIdSbb, x86::Inst::kIdAnd, x86::Inst::kIdSub, x86::Inst::kIdXor, x86::Inst::kIdCmp };
+      if (sscanf(line + 1, "%u %u %u %u %u %u %lld", &op, &form, &size, &acc, &optsize, &longform, &imm) != 7 || !xa.init() || op > 11) { printf("BAD\n"); continue; }
+      static const InstId ids[12] = { x86::Inst::kIdAdd, x86::Inst::kIdOr, x86::Inst::kIdAdc, x86::Inst::kIdSbb, x86::Inst::kIdAnd, x86::Inst::kIdSub, x86::Inst::kIdXor, x86::Inst::kIdCmp,
+                                      x86::Inst::kIdTest, x86::Inst::kIdMov, x86::Inst::kIdImul, x86::Inst::kIdPush };
       xa.a.set_offset(0);
       xa.a.clear_encoding_options(EncodingOptions::kOptimizeForSize);
       if (optsize) xa.a.add_encoding_options(EncodingOptions::kOptimizeForSize);
       if (longform) xa.a.add_inst_options(InstOptions::kLongForm);
       Error err;
-      if (form == 0) {
+      if (op == 11) {
+        err = xa.a.emit(ids[op], Imm(int64_t(imm)));
+      }
+      else if (op == 10) {
+        uint32_t id = acc ? 0u : 1u;
+        x86::Gp r = size == 2 ? x86::gpw(id) : size == 4 ? x86::gpd(id) : x86::gpq(id);
+        x86::Gp s2 = size == 2 ? x86::gpw(2) : size == 4 ? x86::gpd(2) : x86::gpq(2);
+        if (form == 0) err = xa.a.emit(ids[op], r, s2, Imm(int64_t(imm)));
+        else err = xa.a.emit(ids[op], r, x86::ptr(x86::rcx, 0, size), Imm(int64_t(imm)));
+      }
+      else if (form == 0) {
         x86::Gp r;
         uint32_t id = acc ? 0u : 1u;
         switch (size) { case 1: r = x86::gpb(id); break; case 2: r = x86::gpw(id); break; case 4: r = x86::gpd(id); break; default: r = x86::gpq(id); break; }
@@ -228,7 +239,7 @@ int main() {
       if (b[i] == 0x66) { has66 = 1; i++; }
       if ((b[i] & 0xF0) == 0x40) { rexw = (b[i] >> 3) & 1u; i++; }
       unsigned opc = b[i++];
-      unsigned shortf = (opc < 0x40 && ((opc & 7) == 4 || (opc & 7) == 5)) ? 1u : 0u;
+      unsigned shortf = ((opc < 0x40 && ((opc & 7) == 4 || (opc & 7) == 5)) || opc == 0xA8 || opc == 0xA9 || opc == 0x68 || opc == 0x6A || (opc >= 0xB0 && opc <= 0xBF)) ? 1u : 0u;
       if (!shortf) i++;   // ModRM (register direct or [rcx]: no SIB, no displacement)
       uint64_t field = 0; unsigned immsize = unsigned(n - i);
       for (size_t k = 0; k < immsize && k < 8; k++) field |= uint64_t(b[i + k]) << (8 * k);
